@@ -69,7 +69,8 @@ def run_case(impl_dir, data, mode="parse", args=(), big_stack=False, cpu=10, wal
         env.update(SAN_ENV)
         if mode == "parse":
             env["CB_VERIF_PARSE_ONLY"] = "1"
-        cmd = ["prlimit", "--cpu=%d" % cpu]
+        # CPU limit (hang -> SIGXCPU) and output-size limit (an endless diagnostic loop must not fill the disk -> SIGXFSZ)
+        cmd = ["prlimit", "--cpu=%d" % cpu, "--fsize=%d" % (32 << 20)]
         if big_stack:
             cmd.append("--stack=%d" % BIG_STACK)
         cmd += [os.path.join(impl_dir, "main"), p] + list(args)
@@ -122,6 +123,8 @@ def signature(r, bound=None):
         return "asan|%s|%s" % (m.group(1), (f.group(1).split("(")[0] + "@" + os.path.basename(f.group(2))) if f else "?")
     if r["killed"] or r["rc"] in (-24, -9):
         return "timeout"
+    if r["rc"] == -25:
+        return "endless-output"
     if r["rc"] < 0:
         return "signal|%d" % -r["rc"]
     if r["rc"] not in (0, 1):
@@ -522,6 +525,14 @@ def expr_case(rng):
     return kind, toks, text
 
 
+_MULTIDIM = re.compile(r"\]\s*\[\s*\d+\s*\]\s+v\d+")
+
+
+def only_1d_arrays(src):
+    """avoid C10-multidim-elem-as-tagged-pointer: no declaration  T[n][m]... name"""
+    return not _MULTIDIM.search(src)
+
+
 def model_lines(sub, lines):
     rc, o, e = common.sh([common.model_bin(PROP), sub], input=("\n".join(lines) + "\n").encode(), timeout=900)
     if rc != 0:
@@ -589,7 +600,7 @@ def run(rep):
 
     def note(data, r):
         # non-trivial = the front end did more than start up: a diagnostic was produced, or a non-empty program was accepted
-        if (r["rc"] == 1 and r["err"].strip()) or (r["rc"] == 0 and len(data.strip()) > 0):
+        if ((r["rc"] == 1 and r["err"].strip()) or r["rc"] == 0) and len(data) >= 8 and len(set(data.split())) >= 3:
             seen_nontrivial.add(hashlib.sha256(data).digest()[:12])
 
     # ---------------- (1) lexer: extracted model vs recursive_lexer.cpp, token for token
@@ -733,13 +744,14 @@ def run(rep):
         import gen_core
         import langrun
         sx = []
-        for k in range(250 if quick else 6000):
+        for k in range(400 if quick else 8000):
             rng = rng_for(seed, "c10-core", k)
             g = gen_core.Gen(rng, gen_core.Opts(wide_lits=False))
             # avoid C10-shift-ub: shift operators are replaced (any count outside 0..63 / negative operand is UB in the evaluator)
             sx.append(g.program().replace("(bin << ", "(bin + ").replace("(bin >> ", "(bin - "))
         ms = langrun.model_run(sx)
-        core_srcs = [m for m in ms if m["expect"] not in ("undef", "nofuel") and "<<" not in m["src"] and ">>" not in m["src"]]
+        core_srcs = [m for m in ms if m["expect"] not in ("undef", "nofuel") and "<<" not in m["src"] and ">>" not in m["src"]
+                     and only_1d_arrays(m["src"])]
     except Exception as e:      # the shared CbCore tool chain is not mine; its absence must not fail C10
         rep.notes.append("CbCore generator unavailable (%s): execution half skipped" % str(e)[:200])
     for m in core_srcs:
@@ -903,8 +915,9 @@ def run(rep):
                 "file; token mutations (delete/duplicate/swap/insert/truncate, 1-6 edits); truncation at every token boundary of sampled files; "
                 "42 nesting amplifiers at depth 40/300 (default stack) and 600-2000 (1 GiB stack limit); raw bytes / ascii noise / keyword soup "
                 "<= 8 KiB; directive-only files with -D; println(<expr>); programs; generated CbCore programs executed fully. All on the "
-                "ASan+UBSan build of the current tree. distinct_nontrivial = distinct inputs (sha256) for which the front end produced a "
-                "diagnostic with exit 1 or accepted a non-empty program, plus distinct lexer inputs whose token list has more than the EOF token.",
+                "ASan+UBSan build of the current tree. distinct_nontrivial = distinct inputs (sha256) of at least 8 bytes and 3 different "
+                "blank-separated words for which the front end produced a diagnostic with exit 1 or accepted the program, plus distinct lexer "
+                "inputs whose token list has more than the EOF token.",
         "samples": samples[:8],
         "input_distribution": hist,
         "exhaustive": False,
